@@ -60,6 +60,7 @@ type PathResult struct {
 	witnessed map[string]bool
 	schedPts int
 	nvars    int
+	tableDecisions int
 }
 
 func (w *Worker) newPath(h *ssa.Function, prefix []int) *Path {
@@ -156,6 +157,7 @@ func (w *Worker) runPath(h *ssa.Function, prefix []int, wantSample bool) (res *P
 		res.natives = p.nativesHit
 		res.stubs = p.stubsHit
 		res.unknown = p.unknown
+		res.tableDecisions = p.nTable
 		res.witnessed = p.witnessed
 		res.nvars = len(p.vars)
 		if p.sched != nil {
@@ -173,6 +175,18 @@ func (w *Worker) runPath(h *ssa.Function, prefix []int, wantSample bool) (res *P
 	if p.sched != nil && p.sched.abort != nil {
 		panic(p.sched.abort)
 	}
+	// every completed path: the solver confirms that the path condition (including every
+	// decision taken from domain tables) is satisfiable - guards against vacuous paths
+	if len(p.vars) > 0 && len(p.vars) <= 3000 && len(prefix) >= 0 && !p.finalChecked {
+		p.finalChecked = true
+		switch p.query() {
+		case Unsat:
+			panic(engineError{"path condition unsatisfiable at the end of a path that the engine considered feasible (domain-table / solver disagreement)"})
+		case Unknown:
+			p.unknown = true
+			p.w.noteUnknown("final satisfiability of a path condition")
+		}
+	}
 	return res
 }
 
@@ -188,6 +202,7 @@ type HarnessStats struct {
 	EngineErr   map[string]int `json:"engine_errors,omitempty"`
 	Steps       int64          `json:"ssa_instructions"`
 	Queries     int            `json:"queries"`
+	TableDecisions int         `json:"decisions_by_domain_tables"`
 	Samples     [][]Draw       `json:"-"`
 	MaxVars     int            `json:"symbolic_vars_max"`
 	SchedPoints int            `json:"sched_points_max,omitempty"`
@@ -283,6 +298,7 @@ func (rs *RunState) explore(h *ssa.Function, nworkers int) {
 				st.Paths++
 				st.Steps += int64(res.steps)
 				st.Queries += res.queries
+				st.TableDecisions += res.tableDecisions
 				if res.nvars > st.MaxVars {
 					st.MaxVars = res.nvars
 				}
